@@ -4,6 +4,7 @@ import MorfuseModel.Unwind.Lemmas
 import MorfuseModel.Unwind.Spin
 import MorfuseModel.Unwind.Timing
 import MorfuseModel.Unwind.Potential
+import MorfuseModel.Unwind.ZeroWait
 /-!
 # C14 — runaway and over-deep scripts are stopped
 
@@ -748,32 +749,33 @@ theorem run_of_halted (E : Env) : ∀ (k : Nat) (s : St), halted s = true → ru
     clock +1 ms per reading -/
 def exZero : Env := { cfg := { prot := true, maxExec := 20, maxDepth := 5 }, prog := [[.wait 0, .jmp 0]], inc := fun _ => 1 }
 
+/-- **A loop that yields with zero delay never returns to the host — protection on or off.**
+    `l0: wait 0; goto l0` (what `while (1) { wait 0 }` does, opcode filler aside), any limit, any clock
+    whose single increments stay below the limit (`maxExecutionTime = 0 ∨ inc i < maxExecutionTime`: the one
+    check that is ever evaluated — after the jump — compares a reading taken one increment after the
+    deadline was set), started in a quiescent state with an empty timer list and `scaledTime ≤ m_time`:
+    after every number of steps the host call has not returned and no exception has been raised.  Every
+    `wait 0` re-times the thread as due; `ExecuteRunning`, called at the end of the same
+    `ScriptExecuteInternal`, resumes it at once with a **fresh deadline**, so no activation ever reaches its
+    limit.  Proof: the cycle invariant `ZW` over the seven state shapes of one round (`Unwind/ZeroWait.lean`).
+    The engine behaves the same way (DESIGN.md 12.2; finite version in
+    corpus/C14/zero-wait-fresh-deadline.json); this is why the class of the termination theorems excludes
+    zero-delay yields. -/
+theorem C14_unwind_zero_wait_never_returns (E : Env) (hprog : E.prog.getD 0 [] = [.wait 0, .jmp 0])
+    (hsmall : ∀ i, E.cfg.maxExec = 0 ∨ E.inc i < E.cfg.maxExec) (s0 : St)
+    (hfresh : find s0.threads s0.nextTid = none) (hd : s0.depth = 0) (hub : s0.ub = false) (hc : s0.cur = none)
+    (htm : s0.timer.elems = []) (hs : s0.scaled ≤ s0.timer.mtime) (k : Nat) :
+    halted (run E k (startCall E s0 0)) = false ∧ (run E k (startCall E s0 0)).exc = none := by
+  have h := zw_run E hprog hsmall s0.nextTid k _ (zw_start E s0 hfresh hd hub hc htm hs)
+  exact ⟨zw_not_halted h, by cases h <;> assumption⟩
+
+/-- non-vacuity: `exZero` (protection on, 20 ms limit, clock +1) meets the hypotheses; after 300 steps the
+    injected clock is far beyond the limit and the host call's frame is still on the stack -/
+example : exZero.prog.getD 0 [] = [.wait 0, .jmp 0] ∧ (∀ i, exZero.cfg.maxExec = 0 ∨ exZero.inc i < exZero.cfg.maxExec) :=
+  ⟨rfl, fun _ => Or.inr (by show 1 < 20; omega)⟩
 set_option maxRecDepth 1000000 in
-/-- **A loop that yields with zero delay never returns to the host although protection is on** — full
-    statement: `∀ k, halted (run exZero k (startCall exZero {} 0)) = false`.  Every `wait 0` re-times the thread
-    as due; `ExecuteRunning`, called at the end of the same `ScriptExecuteInternal`, resumes it at once with
-    a fresh deadline, so no activation ever reaches its limit.  *Proved* (`_partial`): the host call has not
-    returned after any `k ≤ 600` steps; at step 600 the injected clock shows 401 ms — twenty
-    times the limit —, no exception was raised, exactly one thread exists and the native stack still holds the
-    host call's `ScriptThread::Execute` frame.  *Missing* for the full statement: the cycle invariant over the
-    seven state shapes of one round (the machine is not periodic: the clock differs in every round).  The engine
-    behaves the same way (DESIGN.md 12.2; finite version in corpus/C14/zero-wait-fresh-deadline.json: 40 rounds,
-    491 ms in one call under a 20 ms limit, engine == model); this is why `Nest` excludes `wait` / `waitthread`. -/
-theorem C14_unwind_zero_wait_never_returns_partial :
-    (∀ k, k ≤ 600 → halted (run exZero k (startCall exZero {} 0)) = false) ∧
-    (run exZero 600 (startCall exZero {} 0)).now = 401 ∧ (run exZero 600 (startCall exZero {} 0)).exc = none ∧
-    (run exZero 600 (startCall exZero {} 0)).threads.length = 1 ∧
-    (run exZero 600 (startCall exZero {} 0)).stack.getLast? = some .thrExec := by
-  have h600 : halted (run exZero 600 (startCall exZero {} 0)) = false := by decide
-  refine ⟨?_, by decide, by decide, by decide, by decide⟩
-  intro k hk
-  cases hh : halted (run exZero k (startCall exZero {} 0)) with
-  | false => rfl
-  | true =>
-    have := run_of_halted exZero (600 - k) _ hh
-    rw [← run_add, show k + (600 - k) = 600 by omega] at this
-    rw [this] at h600
-    rw [hh] at h600
-    cases h600
+example : (run exZero 300 (startCall exZero {} 0)).now > 10 * exZero.cfg.maxExec ∧
+    (run exZero 300 (startCall exZero {} 0)).stack.getLast? = some .thrExec ∧
+    (run exZero 300 (startCall exZero {} 0)).threads.length = 1 := by decide
 
 end Morfuse.Unwind
